@@ -196,6 +196,11 @@ private:
 
                 if( isdigit( ch ))
                 {
+                    if( k >= sizeof( buf ) - 1 )
+                    {
+                        io_error( "Number too long in pnm file." );
+                    }
+
                     buf[ k++ ] = static_cast< char >( ch );
                 }
                 else if( k )
